@@ -54,7 +54,6 @@ def main (args : List String) : IO UInt32 := do
   | ["chain", backend] =>
     let (cap, st) := chainInit backend
     loopState stdin stdout (chainStep cap) st; return 0
-  | "chain" :: _ => loopState stdin stdout chainStep (Drand.Chain.Stack.init true []); return 0
   | ["sync"] => loopState stdin stdout syncStep ({} : SyncSt); return 0
   | ["hash"] => loopPure stdin stdout hashStep; return 0
   | ["secrecy"] => loopPure stdin stdout secrecyStep; return 0
